@@ -7,5 +7,5 @@ if [ -n "$(git status --porcelain --untracked-files=no)" ]; then echo "/repo not
 git apply "$patch" || { echo "patch does not apply: $patch"; exit 3; }
 trap 'git -C /repo checkout -- . ; git -C /repo clean -fdq' EXIT
 for p in "$@"; do
-  /verif/bin/zapverif check "$p" --verif /tmp/tryverif 2>&1 | grep -E "^(violated|undecided|rule-below|VIOL|UNDEC|C[0-9]+ tier)" | cut -c1-${TRYW:-300} | awk -v n="${TRYN:-8}" 'NR<=n || /^(VIOL|UNDEC|C[0-9]+ tier)/'
+  ${ZV_BIN:-/verif/bin/zapverif} check "$p" --verif /tmp/tryverif 2>&1 | grep -E "^(violated|undecided|rule-below|VIOL|UNDEC|C[0-9]+ tier)" | cut -c1-${TRYW:-300} | awk -v n="${TRYN:-8}" 'NR<=n || /^(VIOL|UNDEC|C[0-9]+ tier)/'
 done
